@@ -304,3 +304,30 @@ Proof.
   - change (0 <? 0)%Z with false. cbv iota. lia.
 Qed.
 Print Assumptions c08_window_size_wraps_to_zero_refuted.
+
+(* ---- composition with the close handshake (C16): the `fin` result of receiver.receive — finProcessed, the
+   signal on which Reliable.receive moves the tube towards closed (initiated -> closeWait, finWait -> closing /
+   timeWait; the input f_inorder of Model/Shutdown.v) — is reported, in ANY history of arrivals and reads
+   (premise history_ok as in c08_reassembly_prefix), only by an arrival after which all n data frames and the FIN
+   have been consumed in order and everything written is with the reader or buffered for it.  With
+   c08_reassembly_prefix (EOF only when the reader has the whole stream) and C16's handshake theorems (which take
+   f_inorder as an arbitrary input) this gives: end-of-stream and the closing transitions it triggers happen
+   only after all bytes written before the close were delivered. *)
+From Hop Require Import RecvFinProofs.
+Theorem c08_fin_processed_only_after_all_bytes : forall (chunks : list bytes) (evs : list revent) (a : arrival),
+  nchunks chunks + two32 + 2000 < two64 ->
+  history_ok recv_init chunks (evs ++ [EArr a]) ->
+  let '(r, out, _) := deliver recv_init chunks evs [] false in
+  let '(r', fin, _) := receive r (frame_of chunks a) in
+  fin = true ->
+  consumed r' = S (List.length chunks) /\ out ++ r_buf r' = List.concat chunks.
+Proof. intros chunks evs a Hn. exact (fin_processed_only_after_all_bytes chunks Hn evs a). Qed.
+Print Assumptions c08_fin_processed_only_after_all_bytes.
+
+(* non-vacuity: in the example history the FIN arrives early (nothing reported), the last missing data frame
+   reports fin *)
+Example c08_fin_processed_example :
+  history_ok recv_init ex_chunks ([EArr (AData 3); EArr (AData 1); EArr AFin] ++ [EArr (AData 2)]) /\
+  snd (fst (receive (fst (fst (deliver recv_init ex_chunks [EArr (AData 3); EArr (AData 1)] [] false))) (frame_of ex_chunks AFin))) = false /\
+  snd (fst (receive (fst (fst (deliver recv_init ex_chunks [EArr (AData 3); EArr (AData 1); EArr AFin] [] false))) (frame_of ex_chunks (AData 2)))) = true.
+Proof. vm_compute. repeat split; try reflexivity; try discriminate. Qed.
